@@ -142,13 +142,15 @@ class EngineScenario:
             try:
                 await api()
             except asyncio.CancelledError:
+                raised = "cancelled"
                 raise
             except Exception as e:  # noqa
                 raised = type(e).__name__
             finally:
                 t1 = s.loop.time()
                 failed = any(e["ev"] == "ERROR_PROTOCOL_RETRY_COUNT_EXCEEDED" and e["task"] == name for e in s.events[n_ev:])
-                result = ("raised" if raised else "refused" if (gated and not gate) else "fail" if failed else "reply")
+                result = ("cancelled" if raised == "cancelled" else "raised" if raised else
+                          "refused" if (gated and not gate) else "fail" if failed else "reply")
                 sess.ev.append({"k": "ret", "c": name, "result": result, "exc": raised or "", "t": ms(t1), "_n": next(_vl.SEQ)})
 
         t = s.loop.create_task(wrapper(), name=name)
@@ -184,7 +186,7 @@ class EngineScenario:
             if e["k"] == "put":
                 kind, verb, pair, wf = classify(e["data"], spa)
                 ev.append({"k": "put", "id": e["id"], "kind": kind, "verb": verb, "pair": pair, "wf": wf,
-                           "requeue": e["by"] == "SPA:Packet handler", "t": ms(e["t"]), "_n": e["n"]})
+                           "requeue": e["by"] == "SPA:Packet handler", "by": e["by"], "t": ms(e["t"]), "_n": e["n"]})
             elif e["k"] == "mark":
                 ev.append({"k": "mark", "id": e["id"], "by": e["by"], "t": ms(e["t"]), "_n": e["n"]})
             else:
